@@ -184,7 +184,7 @@ def payload_panics(err):
 
 # ---------------------------------------------------------------- C10: several receivers, real scheduling
 
-def c10_scenario(rep, binary, workdir, rng, attempt=0, params=None):
+def c10_scenario(rep, binary, workdir, rng, attempt=0, params=None, overlong=False):
     # a retry repeats the same shape (receivers, window, number of frames) with fresh frames: a loss that depends on
     # the shape (e.g. more groups closing at once than a channel holds) must reproduce, a hiccup of the machine must not
     nsrc, window, nframes = params or (rng.choice([2, 2, 3]), rng.choice([100, 200, 400]), rng.choice([40, 150, 400, 900]))
@@ -195,6 +195,13 @@ def c10_scenario(rep, binary, workdir, rng, attempt=0, params=None):
         b = bytearray(f)
         b[6] ^= 0x04
         bad.append(bytes(b))
+    if overlong:
+        # short replies carried in a 14-byte Beast record (the reader sizes a record by its type byte, not by the DF): the
+        # library decodes them (the caller asked it), so their receptions are owed like any other
+        from common import seal
+        for _ in range(max(2, nframes // 12)):
+            good.append(seal(bytes([0x20, 0x00, 0x17, 0x9F]), rng.randrange(1, 1 << 24)) + bytes(rng.randrange(256) for _ in range(7)))
+        rep.cls("system:over-long-frames-sent", max(2, nframes // 12))
     markers = [df17(0xEEEE00 + i, me_ident(4, 0, "MARK%d" % i)) for i in range(nsrc)]
     run = Run(binary, workdir, nsrc=nsrc, window=window, tag="c10sys")
     try:
@@ -298,7 +305,7 @@ def c10_scenario(rep, binary, workdir, rng, attempt=0, params=None):
     if missing and alive:
         if attempt == 0:
             rep.cls("system:incomplete-first-attempt(retried)")
-            return c10_scenario(rep, binary, workdir, random.Random(rng.random()), attempt=1, params=(nsrc, window, nframes))
+            return c10_scenario(rep, binary, workdir, random.Random(rng.random()), attempt=1, params=(nsrc, window, nframes), overlong=overlong)
         if done is False:
             rep.violation("C10:system:lost", f"{len(missing)} of {len(good)} frames sent on {nsrc} feeds never came out with all their receptions, "
                           f"45 s after four later frames closed their window (reproduced on a second attempt), e.g. {missing[0]} -> {per_frame.get(missing[0])}", replay)
